@@ -1193,22 +1193,25 @@ func (rn *runner) step() {
 			return
 		}
 		rn.script = nil
-	} else if rn.pendingCrash < 0 && w.r.chance(1, 25) {
-		switch y := w.r.below(4); {
+	} else if rn.pendingCrash < 0 && w.r.chance(1, 12) {
+		// interleaving templates; with consumers the races between the state machine and view shifts come first
+		y := w.r.below(6)
+		canEnter := !rn.entered || v.Height > rn.lastEnterH || (v.Height == rn.lastEnterH && v.Round >= rn.lastEnterR)
+		switch {
+		case y <= 1 && rn.consumers && canEnter:
+			// the mirror jumps a round while the state machine is not reading; the state machine enters
+			// that round by itself and only then reads
+			rn.stats["script_jump_enter_race"]++
+			rn.script = []string{"enter-voting?", "nextround-all", "enter-voting", "precommit-one", "smread", "smread"}
+		case y == 2 && rn.consumers && rn.entered:
+			// the state machine stalls while the network commits several heights
+			rn.stats["script_stalled_sm"]++
+			rn.script = []string{"propose", "precommit-all", "propose", "precommit-all", "propose", "precommit-all", "propose", "precommit-all", "smread", "gread"}
 		case y == 3 && replayMode:
 			// a proposal is seen, the round is skipped, and the header comes back as a replayed header
 			rn.stats["script_replay_of_seen_proposal"]++
 			rn.script = []string{"propose", "nextround-all", "replay-known"}
-		case y == 0 && rn.consumers && rn.entered && rn.lastEnterH == v.Height && rn.lastEnterR == v.Round:
-			// the mirror jumps a round while the state machine is not reading; the state machine enters
-			// that round by itself and only then reads
-			rn.stats["script_jump_enter_race"]++
-			rn.script = []string{"nextround-all", "enter-voting", "vote-here", "smread", "smread"}
-		case y == 1 && rn.consumers && rn.entered:
-			// the state machine stalls while the network commits several heights
-			rn.stats["script_stalled_sm"]++
-			rn.script = []string{"propose", "precommit-all", "propose", "precommit-all", "propose", "precommit-all", "propose", "precommit-all", "smread", "gread"}
-		case y == 2:
+		case y == 4:
 			// a whole round in order: proposal, prevotes, precommits by everyone
 			rn.stats["script_full_round"]++
 			rn.script = []string{"propose", "prevote-all", "precommit-all"}
@@ -1357,6 +1360,15 @@ func (rn *runner) scripted(op string, v, c *tmconsensus.VersionedRoundView) bool
 	switch op {
 	case "nextround-all":
 		rn.doVotes(kindPrevote, H, R+1, pkh, []voteEntry{{"", rn.mkSigs(cur, kindPrevote, H, R+1, "", allIdx(n), 0)}})
+	case "enter-voting?":
+		if !rn.entered || H > rn.lastEnterH || (H == rn.lastEnterH && R > rn.lastEnterR) {
+			rn.entered, rn.lastEnterH, rn.lastEnterR = true, H, R
+			rn.doEnter(H, R)
+		} else if !(H == rn.lastEnterH && R == rn.lastEnterR) {
+			return false
+		} else {
+			rn.doSMRead()
+		}
 	case "enter-voting":
 		if !(H > rn.lastEnterH || (H == rn.lastEnterH && R > rn.lastEnterR) || !rn.entered) {
 			return false
@@ -1365,6 +1377,9 @@ func (rn *runner) scripted(op string, v, c *tmconsensus.VersionedRoundView) bool
 		rn.doEnter(H, R)
 	case "vote-here":
 		rn.doVotes(kindPrevote, H, R, pkh, []voteEntry{{target, rn.mkSigs(cur, kindPrevote, H, R, target, rn.randSubset(n, 1), 0)}})
+	case "precommit-one":
+		i := rn.w.r.below(max(n, 1))
+		rn.doVotes(kindPrecommit, H, R, pkh, []voteEntry{{target, rn.mkSigs(cur, kindPrecommit, H, R, target, []int{i}, 0)}})
 	case "prevote-all":
 		rn.doVotes(kindPrevote, H, R, pkh, []voteEntry{{target, rn.mkSigs(cur, kindPrevote, H, R, target, allIdx(n), 0)}})
 	case "precommit-all":
